@@ -650,4 +650,61 @@ theorem linesSlice_eq_spec (s : List Char) (i j : Nat)
           · simpa [specLinesLen] using h3)
       exact this
 
+/-! ### listed lines contain no newline -/
+
+theorem rawLines_nl_last (s : List Char) : ∀ l ∈ rawLines s, '\n' ∉ l.dropLast := by
+  induction s with
+  | nil => simp [rawLines]
+  | cons c s ih =>
+    unfold rawLines
+    by_cases hc : c = '\n'
+    · subst hc
+      simp only [if_true, List.mem_cons]
+      rintro l (rfl | hl)
+      · simp
+      · exact ih l hl
+    · simp only [hc, if_false]
+      cases hr : rawLines s with
+      | nil => simp
+      | cons l ls =>
+        rw [hr] at ih
+        simp only [List.mem_cons]
+        rintro m (rfl | hm)
+        · have := ih l (by simp)
+          cases l with
+          | nil => simp
+          | cons d l =>
+            simp only [List.dropLast_cons_cons, List.mem_cons, not_or]
+            exact ⟨fun h => hc h.symm, this⟩
+        · exact ih m (by simp [hm])
+
+theorem mem_dropLast {α} (l : List α) (x : α) (h : x ∈ l.dropLast) : x ∈ l :=
+  List.dropLast_subset l h
+
+theorem stripEol_no_nl (l : List Char) (h : '\n' ∉ l.dropLast) : '\n' ∉ stripEol l := by
+  unfold stripEol
+  split
+  · simp only
+    split
+    · intro hm; exact h (mem_dropLast _ _ hm)
+    · exact h
+  · rename_i hl
+    intro hm
+    cases hx : l.getLast? with
+    | none => simp at hx; subst hx; simp at hm
+    | some x =>
+      obtain ⟨ys, hys⟩ := List.getLast?_eq_some_iff.1 hx
+      subst hys
+      simp only [List.dropLast_concat] at h
+      simp only [List.mem_append, List.mem_singleton] at hm
+      rcases hm with hm | hm
+      · exact h hm
+      · subst hm; exact hl hx
+
+theorem strLines_no_nl (s : List Char) : ∀ l ∈ linesList s, '\n' ∉ l := by
+  intro l hl
+  simp only [linesList, strLines, List.mem_map] at hl
+  obtain ⟨r, hr, rfl⟩ := hl
+  exact stripEol_no_nl r (rawLines_nl_last s r hr)
+
 end RotoV.Strings
